@@ -27,14 +27,24 @@ ASSUMPTIONS = [
 ]
 
 
+LARGE = {'quick': dict(n1=8, n2=13, n2min=10, n3=5, lmax=6),
+         'thorough': dict(n1=12, n2=24, n2min=10, n3=8, lmax=8)}
+
+
 def budget(tier):
-    return 4000 if tier == 'quick' else 80000
+    return 10000 if tier == 'quick' else 100000
 
 
 @st.composite
 def _cases(draw, tier):
-    mode = 'cbc' if pct(draw) < 6 else 'eb'
+    large = pct(draw) < 12
+    mode = 'cbc' if (large or pct(draw) < 6) else 'eb'
     salt = draw(strategies.salts)
+    if large:
+        # ids with two digits, many projects per lecturer: no enumeration needed for this oracle
+        inst = draw(strategies.instances(LARGE[tier]))
+        opts = draw(strategies.option_sets(inst, min_crit=1, max_crit=3, stab=False))
+        return {'inst': inst, 'opts': opts, 'choices': [], 'mode': 'cbc', 'salt': salt}
     inst = draw(strategies.instances(strategies.SIZES[tier]))
     shape = draw(st.sampled_from(['none', 'none', 'minsize', 'few', 'few']))
     if shape == 'none':
